@@ -13,9 +13,8 @@ Proof. intros. destruct (N.lt_ge_cases d 128); [left; now apply land_128_small|r
 Lemma read_vbi_span : forall b vbi mult v r,
   read_vbi b vbi mult = Ok (v, r) -> len b - len r <= varint_span b /\ len r <= len b.
 Proof.
-  induction b; intros vbi mult v r H; cbn [read_vbi] in H.
-  - inversion H; subst. cbn. lia.
-  - destruct (_ <? _); [discriminate|].
+  induction b; intros vbi mult v r H; cbn [read_vbi] in H; [discriminate|].
+  - destruct (21 <? mult); [discriminate|]. destruct (_ <? _); [discriminate|].
     cbn [varint_span]. rewrite len_cons.
     destruct (N.eqb_spec (N.land a 128) 0) as [E|E].
     + inversion H; subst. destruct (a <? 128); lia.
